@@ -3,6 +3,7 @@ node signatures, the memo key and file states; injectivity oracle over a value p
 from __future__ import annotations
 
 import hashlib
+import json
 import itertools
 import struct
 
@@ -228,6 +229,13 @@ def run(out, tier, seed, proof):
                 tt = t0 - back
             seq.append((rng.choice(["plain", "dot", "updown"]), rng.choice(["a.bin", "b.bin"]), tt, rng.choice(conts + [None])))
         seqs.append(seq)
+    # files larger than one read block (256 KiB and a multiple of it, plus a tail): edits confined to the tail
+    for size in ([262144 + 5, 2 * 262144 + 70000] if tier == "quick" else [262144, 262144 + 1, 262144 + 5, 2 * 262144 + 70000, 3 * 262144 - 1]):
+        body_ = rng.randbytes(size)
+        v1 = body_.hex()
+        v2 = (body_[:-1] + bytes([body_[-1] ^ 1])).hex()
+        v3 = (body_ + b"appended row\n").hex()
+        seqs.append([("plain", "big.bin", t0 + 10, v1), ("plain", "big.bin", t0 + 20, v2), ("dot", "big.bin", t0 + 30, v3), ("plain", "big.bin", t0 + 40, v1)])
     f5 = [("plain", "a.bin", t0, "00"), ("plain", "a.bin", t0, "01")]
     res = run_impl_worker("impl_hash.py", {"states": seqs + [f5]})["states"]
     for seq, o in zip(seqs, res):
@@ -245,6 +253,24 @@ def run(out, tier, seed, proof):
                 last.setdefault(name, []).append((mt, cont))
     if res[-1][1][0] != hashlib.sha256(b"\x01").hexdigest():
         out.violation("content changed under an unchanged modification time is not seen", {"sequence": f5, "returned": res[-1]}, finding_matchers=("F5",))
+    # ---- signatures do not depend on the working directory of the session
+    cw = run_impl_worker("impl_hash.py", {"cwd_sigs": True})["cwd_sigs"]
+    cwds = sorted(cw)
+    for rel in sorted(cw[cwds[0]]):
+        out.case(["cwd_signature", rel], nontrivial=True)
+        by_cwd = {c_: cw[c_][rel] for c_ in cwds}
+        if len({json.dumps(v) for v in by_cwd.values()}) > 1:
+            out.violation("the signature of a node or task depends on the working directory of the session", {"path": rel, "signatures_by_cwd": by_cwd})
+    for c_ in cwds:
+        sig_of = {}
+        for rel, sg in cw[c_].items():
+            for kind, x in zip(("PathNode", "PickleNode", "Task", "DirectoryNode"), sg):
+                if kind == "PickleNode":
+                    continue      # same file as the PathNode: the same node
+                key = (kind, rel if kind != "DirectoryNode" else rel.rsplit("/", 1)[0] if "/" in rel else "")
+                if x in sig_of and sig_of[x] != key:
+                    out.violation("two different declarations share one signature", {"a": sig_of[x], "b": key, "cwd": c_})
+                sig_of.setdefault(x, key)
     # ---- identity of collected path nodes: Hashing.collected_path vs real collection
     SUBS = ["", "src", "src/a", "x.y"]
     TARGETS = ["bld/x.txt", "bld/y.txt", "src/x.txt", "x.txt"]
